@@ -141,7 +141,10 @@ def main(argv):
         st = r["status"]
         if st == "CONFIRMED":
             tw = r.get("twin") or {}
-            if tw.get("status") != "REFUTED" or r.get("confirmed_paths", 0) < 1:
+            # non-vacuity: at least one path passed every precondition, ran the body and had its assertion
+            # evaluated.  The twin (same claim, postcondition False) supplies the sample input; if it runs out of
+            # its short budget on a loaded machine the confirmed-path count alone is the witness.
+            if r.get("confirmed_paths", 0) < 1 or tw.get("status") in ("CONFIRMED", "PRE_UNSAT"):
                 harness_errors.append("claim %s is vacuous: reachability twin %s, confirmed paths %s" % (r["name"], tw.get("status"), r.get("confirmed_paths")))
         elif st == "REFUTED":
             if r.get("cex") is None:
